@@ -21,6 +21,8 @@ func main() {
 		cmdWorker(os.Args[2:])
 	case "replay":
 		cmdReplay(os.Args[2:])
+	case "stress":
+		cmdStress(os.Args[2:])
 	case "genpool":
 		cmdGenPool(os.Args[2:])
 	default:
